@@ -281,7 +281,9 @@ class AbstractFeatureBasedAccountingMethod(AbstractAccountingMethod):
 
         if selected_acquired_lot_amount > ZERO and selected_acquired_lot:
             lot_candidates.clear_partial_amount(selected_acquired_lot)
-            if selected_acquired_lot_amount > taxable_event_amount:
-                self.add_selected_lot_to_heap(lot_candidates.acquired_lot_heap, selected_acquired_lot)
+            # Always put the selected lot back in the heap: it may not be consumed by the taxable event it was selected for (e.g. earn-typed
+            # events don't consume lots), in which case its partial amount is restored later and it must still be reachable. If the lot does
+            # get exhausted, its heap entry is harmless: entries with zero partial amount are skipped by the loop above.
+            self.add_selected_lot_to_heap(lot_candidates.acquired_lot_heap, selected_acquired_lot)
             return AcquiredLotAndAmount(acquired_lot=selected_acquired_lot, amount=selected_acquired_lot_amount)
         return None
